@@ -193,3 +193,13 @@ where
     }
     v
 }
+
+/// Scalar that `hash_to_scalar` derives from an oracle state in the MODEL (used only by the
+/// programmed-oracle contract harnesses): the model expander's output stream folded by `from_okm`.
+#[cfg(feature = "prog")]
+pub fn scalar_of_state(state: u16) -> Scalar {
+    let mut okm = [0u8; EXPAND_LEN];
+    let mut e = elliptic_curve::hash2curve::ModelExpander { state, ctr: 0 };
+    e.fill_bytes(&mut okm);
+    Scalar::from_okm(&okm)
+}
